@@ -18,7 +18,7 @@ class HealthFamily(Family):
     uses_gen = ("NONE",)
     trusted = ["net/http/httptest, encoding/json", "GenericSyncMap as an association list; one critical section per Store / Len / Iterate"]
     assumptions = ["WaitForReady is exercised with DefaultReadyCheckInterval = 2 ms and a 60 ms observation window; 'waitlate' = the caller reads the channel 40 ms (20 check intervals) after the cancellation"]
-    rule = "concurrent programs (requests racing with updates) explored at lock granularity; exhaustive logs up to length 4 over {add, ready} x 3 names with a status request after every operation, plus random logs over 6 names (incl. 'overall' and the empty name) with requests, IsReady and WaitForReady; non-trivial = >=2 answers"
+    rule = "concurrent programs (requests racing with updates) explored at lock granularity; exhaustive logs up to length 4 over {add, ready} x 3 names with a status request after every operation, plus random logs over 6 names (incl. 'overall' and the empty name) with requests, IsReady and WaitForReady; token rings of 2..512 components (one pending in every state) probed by free-running Go routines; non-trivial = >=2 answers"
 
     conc = ConcFamily("C18", "health")
 
@@ -101,6 +101,11 @@ class HealthFamily(Family):
         for ops in (["add:" + a, "waitlate"], ["add:" + a, "add:" + b, "ready:" + a, "waitlate"], ["add:" + a, "ready:" + a, "waitlate"],
                     ["add:" + a, "ready:" + a, "add:" + a, "waitlate", "get"], ["waitlate"], ["add:" + a, "wait", "ready:" + a, "wait"]):
             cs.append({"ops": ops})
+        # snapshot clause, free-running: a token ring of registrations in which some component is pending in every state
+        # (C18R.ring_never_ready), probed by Go routines calling IsReady and the handler as fast as they can
+        for n_, pr, ms in ([(2, 4, 120), (8, 4, 120), (64, 6, 150), (512, 4, 200), (512, 8, 200)] if tier == "quick" else
+                           [(2, 4, 400), (3, 8, 400), (8, 4, 400), (64, 6, 500), (512, 4, 800), (512, 8, 800), (2000, 6, 800)] * 3):
+            cs.append({"ops": ["ring:%d:%d:%d" % (n_, pr, ms), "get"]})
         # snapshot clause: requests racing with registrations / ready-marks under the controlled scheduler
         cs += self.conc.health_cases(tier, rng)
         return cs
